@@ -698,9 +698,18 @@ func RunOverlay(dir, src, workDir string) (string, error) {
 	cmd.Stdout = &out
 	cmd.Stderr = &out
 	err := cmd.Run()
-	s := out.String()
-	if len(s) > 6000 {
-		s = s[:6000]
+	// drop the program's own structured log lines (zerolog JSON) so that the verdict lines survive,
+	// then keep the head and the tail of what is left
+	var kept []string
+	for _, l := range strings.Split(out.String(), "\n") {
+		if strings.HasPrefix(l, "{\"level\"") {
+			continue
+		}
+		kept = append(kept, l)
+	}
+	s := strings.Join(kept, "\n")
+	if len(s) > 8000 {
+		s = s[:3000] + "\n[...]\n" + s[len(s)-5000:]
 	}
 	if err != nil && !strings.Contains(s, "REPLAY-") {
 		return s, fmt.Errorf("go test: %v", err)
